@@ -271,14 +271,25 @@ fn gen_octets(r: &mut Rng) -> Vec<u8> {
 const HOLD_UNCERTAIN_255: bool = false;
 
 fn uncertain_case(out: &mut Out, w: &[u8]) {
-    use domain::base::name::{ToName, UncertainName};
+    use domain::base::name::{ToLabelIter, ToName, UncertainName};
     let c = format!("unc {}", hex(w));
     let u = UncertainName::from_octets(w.to_vec());
     let obs = match &u { Ok(UncertainName::Absolute(_)) => "A".to_string(), Ok(UncertainName::Relative(_)) => "R".to_string(), Err(e) => err_word(&format!("{:?}", e)) };
     out.case(&c, &obs, w.len() > 1, "uncertain_from_octets");
     match u {
         Err(_) => {}
-        Ok(UncertainName::Absolute(n)) => oracle_abs(out, &c, n.as_slice(), false),
+        Ok(UncertainName::Absolute(n)) => {
+            oracle_abs(out, &c, n.as_slice(), false);
+            // an absolute left side ignores the suffix
+            let right = Name::from_octets(vec![3, b'c', b'o', b'm', 0]).unwrap();
+            let uc = format!("uchain A {} 03636f6d00", hex(n.as_slice()));
+            let l = n.as_slice().to_vec();
+            match UncertainName::Absolute(n).chain(right) {
+                Ok(ch) => { let v = ch.to_vec(); out.case(&uc, &format!("Ok:{}", hex(v.as_slice())), true, "chain_uncertain_octets");
+                            out.check(v.as_slice() == &l[..] && usize::from(ch.compose_len()) == l.len(), "uncertain_chain_octets", &uc, &hex(v.as_slice())); }
+                Err(_) => { out.case(&uc, "LongChain", true, "chain_uncertain_octets"); out.check(false, "chain_refused_fitting", &uc, "absolute left side refused"); }
+            }
+        }
         Ok(UncertainName::Relative(n)) => {
             let ok = check_rel(n.as_slice());
             if ok == Err("relative_name_longer_than_254") && n.as_slice().len() == 255 {
@@ -292,9 +303,13 @@ fn uncertain_case(out: &mut Out, w: &[u8]) {
                 let right = Name::from_octets(vec![3, b'c', b'o', b'm', 0]).unwrap();
                 let ll = n.as_slice().len();
                 let cc = format!("chainu R {} 5", ll);
+                let uc = format!("uchain R {} 03636f6d00", hex(n.as_slice()));
+                let mut want = n.as_slice().to_vec(); want.extend_from_slice(&[3, b'c', b'o', b'm', 0]);
                 match UncertainName::Relative(n).chain(right) {
-                    Ok(ch) => { out.case(&cc, "Ok", true, "chain_uncertain"); let v = ch.to_vec(); oracle_abs(out, &cc, v.as_slice(), false); }
-                    Err(_) => { out.case(&cc, "LongChain", true, "chain_uncertain"); out.check(ll + 5 > 255, "chain_refused_fitting", &cc, ""); }
+                    Ok(ch) => { out.case(&cc, "Ok", true, "chain_uncertain"); let v = ch.to_vec(); oracle_abs(out, &cc, v.as_slice(), false);
+                                out.case(&uc, &format!("Ok:{}", hex(v.as_slice())), true, "chain_uncertain_octets");
+                                out.check(v.as_slice() == &want[..] && usize::from(ch.compose_len()) == want.len(), "uncertain_chain_octets", &uc, &hex(v.as_slice())); }
+                    Err(_) => { out.case(&cc, "LongChain", true, "chain_uncertain"); out.case(&uc, "LongChain", true, "chain_uncertain_octets"); out.check(ll + 5 > 255, "chain_refused_fitting", &cc, ""); }
                 }
             }
         }
@@ -813,6 +828,7 @@ fn slicing_t2(out: &mut Out, r: &mut Rng, w: &[u8], absolute: bool) {
             out.check(check_abs(v).is_ok(), "into_absolute_invalid", &c, &hex(v));
             let cr = n.clone().chain_root(); use domain::base::name::ToName;
             out.check(cr.to_vec().as_slice() == &v[..], "chain_root_differs", &c, "");
+            out.case(&format!("chroot {}", h), &format!("Ok:{}", hex(cr.to_vec().as_slice())), true, "chain_root");
         }
         out.case(&c, &ow, true, "into_absolute");
     }
